@@ -1,6 +1,8 @@
 """C17 - delivery-independent input; files stay separate; input-context is exact"""
 from ..scen_parser import tokenizer, selfcheck
 from ..scen_readinput import read_input
+from ..scen_files import files
+from ..scen_go import go_chain
 
 
 def run(ctx):
@@ -8,3 +10,5 @@ def run(ctx):
     n = 3 if ctx.quick else 4
     tokenizer(ctx, n, ['tok.location', 'tok.consumed', 'tok.value', 'tok.garbage', 'tok.end'], f'full alphabet n={n}')
     read_input(ctx, ['read.counters', 'read.locations', 'read.only_objects_and_arrays'])
+    files(ctx)
+    go_chain(ctx, want=('go.inputs',), files_only=True)
